@@ -242,8 +242,10 @@ def verify_rebalance(ex, contract, timeout_ms=30000):
                 ob("operation:transact-iff-fi-child-of-fi-strategy", And(fi_flag, H.get(c, "_fixed_income")) == is_tr, ("C06", "C17"))
                 upd_arg = a[1] if q.endswith("SecurityBase.allocate") or q.endswith("SecurityBase.transact") else a[2]
                 ob("update-flag-passed-down", value_same(upd_arg, update), ("C06", "C08"))
-                # the weights read are fresh: no stale root at the time of the trade unless nothing was read
+                # the weight and the (notional) value that enter the amount are read through their refreshing accessors: whatever was pending
+                # at entry has been resolved by the time the trade is sized
                 rt = H.get(self, "root")
+                ob("amount-is-sized-on-a-refreshed-tree", Not(H.get(rt, "stale")), ("C06", "C17", "C08"))
         s = z3.Solver()
         for p in st0.pc:
             s.add(p)
@@ -394,6 +396,98 @@ def _flat_pre_havoc(ctx):
 
 # loop 0: sub-strategies flatten their own children first (recursive use of flatten's contract: subtree + root.stale)
 FLAT_PRE = LoopSpec(lambda ctx: [], havoc_heap=lambda ctx: [], on_iter=_flat_on_iter, name="flatten sub-strategies first (no-op for one-level trees: proved untouched)", mentions=["flatten"])
+
+
+def _flat_subs_inv(ctx):
+    """nested trees: the pre-loop hands every strategy child that has children of its own - whatever its value, its cash or its weight - to its
+    own flatten(), exactly once, and calls nothing else"""
+    out = []
+    if ctx.phase == "step":
+        st, E = ctx.cur, ctx.entry.heap
+        self = ctx.entry.locals["self"]
+        c = E.list_at(self, "_childrenv", ctx.i - 1)
+        has_kids = And(Not(E.get(c, "_issec")), Not(E.list_len(c, "_childrenv").eq(0)))
+        new = [x for x in st.log[len(ctx.head.log):] if len(x) == 4]
+        fl = [x for x in new if x[0].endswith(".flatten")]
+        out.append(("nothing-but-flatten-is-called-on-sub-strategies", len(new) == len(fl)))
+        if len(fl) == 0:
+            out.append(("a-sub-strategy-with-children-is-flattened-whatever-its-value", Not(has_kids)))
+        elif len(fl) == 1:
+            out.append(("flatten-is-called-on-the-child-itself", fl[0][1].term == c.term))
+            out.append(("only-nodes-with-children-are-flattened-recursively", has_kids))
+        else:
+            out.append(("a-sub-strategy-is-flattened-once", False))
+    return out
+
+
+FLAT_PRE_SUBS = LoopSpec(_flat_subs_inv, havoc_heap=_flat_pre_havoc, on_iter=_flat_on_iter, name="flatten sub-strategies first (nested trees: one recursive call per sub-strategy that has children)", mentions=["flatten"])
+
+
+def verify_flatten_subs(ex, contract, timeout_ms=30000):
+    """the liquidation pre-loop of StrategyBase.flatten on trees of any depth: only that loop statement of the real body is executed (the recursive
+    call through flatten's own contract: havoc of the child's subtree, root.stale set, call logged); the loops after it are verify_flatten's"""
+    import ast as _ast
+    from pyvc.verify import FuncReport, discharge, entry_state
+
+    q = contract.qualname
+    fr = FuncReport(q)
+    try:
+        fi = ex.prog.func(q)
+        fr.source_hash = fi.source_hash()
+        st0, self, args = entry_state(ex, contract)
+        E = st0.heap
+        for f in self_facts(E, self):
+            st0.assume(_zb(f))
+        rt = E.get(self, "root")
+        st0.assume(_zb(Not(E.get(rt, "stale"))))
+        E = st0.heap.copy()
+        st0.ghost["schemas"] = [children_schema(E, self), ForallInt(0, E.list_len(self, "_childrenv"), lambda j: _I_child(E, self, j), name="ji")]
+        loops = [s_ for s_ in fi.body() if isinstance(s_, _ast.For) and FLAT_PRE_SUBS.match(s_)]
+        if len(loops) != 1:
+            raise Undecided("flatten: expected one top-level loop that hands sub-strategies to their own flatten(), found %d" % len(loops))
+        st = st0.fork()
+        st.locals = {fi.node.args.args[0].arg: self}
+        ex.cur_func.append(q)
+        ords = ex.loop_ordinals(fi)
+        ex.loop_counter.append(ords)
+        saved = {k: v for k, v in ex.loop_specs.items() if k[0] == q}
+        for k in saved:
+            ex.loop_specs.pop(k)
+        ex.loop_specs[(q, ords[id(loops[0])])] = FLAT_PRE_SUBS
+        t0 = time.time()
+        try:
+            exits = ex.exec_block([loops[0]], st)
+        finally:
+            ex.cur_func.pop()
+            ex.loop_counter.pop()
+            ex.loop_specs.pop((q, ords[id(loops[0])]), None)
+            ex.loop_specs.update(saved)
+        fr.symexec_s = time.time() - t0
+        fr.paths = len(exits)
+        obligs = []
+        for (st, oc) in exits:
+            kind = oc.kind if oc.kind != "raise" else "raise:" + oc.exc
+            fr.exits[kind] = fr.exits.get(kind, 0) + 1
+            obligs.extend(st.obligs)
+        seen, uniq = set(), []
+        for o in obligs:
+            if id(o) not in seen:
+                seen.add(id(o))
+                o.props = ("C16",)
+                uniq.append(o)
+        s = z3.Solver()
+        for p in st0.pc:
+            s.add(p)
+        fr.canary = str(s.check())
+        discharge(uniq, timeout_ms, fr, q)
+        fr.stats = dict(feas_queries=ex.stats.feas_queries, feas_s=round(ex.stats.feas_time, 3), inlined=sorted(ex.stats.inlined), contracts_used=sorted(ex.stats.contracts_used))
+    except Undecided as e:
+        fr.undecided = str(e)
+    except Exception as e:
+        fr.undecided = "ENGINE-ERROR: %s\n%s" % (e, traceback.format_exc())
+    return fr
+
+
 LOOPS = {("bt.core.StrategyBase.flatten", 0): FLAT_PRE, ("bt.core.StrategyBase.flatten", 1): FLAT_FI, ("bt.core.StrategyBase.flatten", 2): FLAT_MV}
 
 
